@@ -24,8 +24,5 @@ INVARIANT InvCmap
 INVARIANT InvRefusalJustified
 INVARIANT InvFpReadCurrent
 INVARIANT InvLookupCurrent
-PROPERTY WritesLocal
-PROPERTY PureOps
-PROPERTY FailedChangesNothing
-PROPERTY WriteChangesFp
+ACTION_CONSTRAINT StepProps
 CHECK_DEADLOCK FALSE
